@@ -49,6 +49,8 @@ def parse_table(path):
 
 
 def parse_wiring(path):
+    """STATIC reading of the name -> table wiring, for the form the pinned source uses (two HashMap::from([...])
+    literals).  Raises TranslateError for any other form; `generate` then falls back to asking the running code."""
     src = open(path).read()
     # strip line comments (the commented-out get_rules_by_name block)
     code = "\n".join(l for l in src.split("\n") if not l.strip().startswith("//"))
@@ -113,13 +115,59 @@ FIXINGS = [("usd", "nyc"), ("gbp", "ldn"), ("cad", "tro"), ("eur", "tgt"), ("jpy
            ("sek", "stk"), ("nok", "osl"), ("aud", "syd"), ("inr", "mum")]
 
 
+DYN_LO, DYN_HI = dn(1950, 1, 1), dn(2250, 12, 31)
+
+
+def dynamic_wiring(named, tables, static_error):
+    """The wiring of named/mod.rs is not in the form parse_wiring reads (a harmless rewrite, e.g. a `match`): ask the
+    RUNNING code.  For every candidate name (the module file stems) that get_calendar_by_name resolves, the week mask
+    and every holiday of 1950-2250 are read off the real calendar; the name is wired to the source table that equals
+    that answer (the table of the same name first), or - when none does - to a pseudo-module `dyn_<name>` holding the
+    answer itself, so that the theorems are then about exactly what the code returns."""
+    import common
+    ok, log = common.build_harness()
+    if not ok:
+        raise TranslateError("%s; and the harness does not build, so the running code cannot be asked either" % static_error)
+
+    def enc(s):
+        return [len(s)] + [ord(c) for c in s]
+    cands = sorted(tables)
+    res = common.run_harness("named", ["dyn " + " ".join(str(x) for x in enc(n) + [DYN_LO, DYN_HI]) for n in cands])
+    wmask, whols, mods = [], [], []
+    for n, r in zip(cands, res):
+        if not r or r[0] != 0:
+            continue                      # the name does not resolve: not wired
+        mask = [i for i in range(7) if r[1 + i] == 1]
+        hols = r[9:9 + r[8]]
+        def same(m):
+            tm, th = tables[m]
+            return sorted(tm) == mask and sorted(set(h for h in th if DYN_LO <= h <= DYN_HI)) == sorted(set(hols))
+        order = [n] + [m for m in sorted(tables) if m != n]
+        hit = next((m for m in order if same(m)), None)
+        if hit is None:
+            hit = "dyn_" + n
+            tables[hit] = (mask, list(hols))
+        wmask.append((n, hit))
+        whols.append((n, hit))
+        if hit not in mods:
+            mods.append(hit)
+    if not wmask:
+        raise TranslateError("%s; and the running code resolves none of %s" % (static_error, cands))
+    return mods, wmask, whols
+
+
 def generate(repo, outdir):
     named = os.path.join(repo, "rust", "calendars", "named")
-    mods, wmask, whols = parse_wiring(os.path.join(named, "mod.rs"))
     tables = {}
     for f in sorted(os.listdir(named)):
         if f.endswith(".rs") and f != "mod.rs":
             tables[f[:-3]] = parse_table(os.path.join(named, f))
+    wiring_source = "static (HashMap literals of named/mod.rs)"
+    try:
+        mods, wmask, whols = parse_wiring(os.path.join(named, "mod.rs"))
+    except TranslateError as e:
+        mods, wmask, whols = dynamic_wiring(named, tables, str(e))
+        wiring_source = "dynamic (read off the running code: %s)" % e
     for _, mod in wmask + whols:
         if mod not in mods:
             raise TranslateError("wiring refers to module %s which is not declared `pub mod`" % mod)
@@ -158,7 +206,8 @@ def generate(repo, outdir):
             with open(p, "w") as fh:
                 fh.write(content)
             changed.append(fn)
-    summary = {"mods": mods, "wiring_mask": wmask, "wiring_hols": whols, "doc_names": docs,
+    summary = {"mods": mods, "wiring_mask": wmask, "wiring_hols": whols, "doc_names": docs, "wiring_source": wiring_source,
+               "tables": {m: tables[m] for m in tables if m in mods or m in dict(wmask).values() or m in dict(whols).values()},
                "table_sizes": {k: len(v[1]) for k, v in tables.items()}, "changed": changed}
     return summary
 
